@@ -24,6 +24,7 @@ def contracts():
     c["read_file"] = FnSpec(ret="r", ghost=True, sig="""
     ensures *final(w) == *old(w),
         r matches Ok(v) ==> old(w).fs.files.contains_key(path@) && v@ == old(w).fs.files[path@],
+        (r is Ok) == (old(w).fs.files.contains_key(path@) && !crate::vfs::read_faults(old(w).fs, path@)),
 """)
     c["set_owner"] = FnSpec(ret="r", ghost=True, sig="""
     ensures """ + FS_FRAME + """
@@ -75,13 +76,15 @@ def contracts():
     ensures *final(w) == *old(w),
         r matches Ok(k) ==> old(w).fs.files.contains_key(file_path_spec(*fm, FileType::PrivateKey))
             && crate::acme_common::crypto::pem_key(old(w).fs.files[file_path_spec(*fm, FileType::PrivateKey)]) == Some(k), //@C01.key_read_from_key_file,C02.key_of_the_csr_is_read_from_the_key_file,C03.key_of_the_csr_is_read_from_the_key_file
+        // a stored key that can be read and parsed IS handed back (nothing else makes the read fail)
+        (r is Ok) == key_usable(old(w).fs, *fm), //@C03.a_usable_stored_key_is_read_back
 """)
     c["get_certificate"] = FnSpec(ret="r", ghost=True, sig="""
     ensures *final(w) == *old(w),
         r matches Ok(k) ==> old(w).fs.files.contains_key(file_path_spec(*fm, FileType::Certificate))
             && crate::acme_common::crypto::pem_cert(old(w).fs.files[file_path_spec(*fm, FileType::Certificate)]) == Some(k),
 """)
-    c["get_keypair_path"] = FnSpec(ret="r", sig="    ensures r matches Ok(p) ==> p@ == file_path_spec(*fm, FileType::PrivateKey),\n")
+    c["get_keypair_path"] = FnSpec(ret="r", sig="    ensures r matches Ok(p) ==> p@ == file_path_spec(*fm, FileType::PrivateKey), (r is Ok) == path_ok(*fm, FileType::PrivateKey),\n")
     c["get_certificate_path"] = FnSpec(ret="r", sig="    ensures r matches Ok(p) ==> p@ == file_path_spec(*fm, FileType::Certificate),\n")
     c["get_account_data"] = FnSpec(ret="r", ghost=True, sig="""
     ensures *final(w) == *old(w),
@@ -177,8 +180,13 @@ def build():
             && (final(w).fs.files[file_path_spec(cert.file_manager, FileType::PrivateKey)] == key_pem(k)
                 || pem_key(final(w).fs.files[file_path_spec(cert.file_manager, FileType::PrivateKey)]) == Some(k)), //@C01.key_pair_is_the_key_in_the_key_file,C03.key_of_the_coming_certificate_is_the_key_in_the_key_file,C02.key_of_the_csr_is_the_key_in_the_key_file
 """
+    # C03: with kp_reuse the installed key is replaced only when it cannot be used (absent, unreadable, unparseable) - the issuance
+    # (unit issue) relies on exactly this when it calls get_key_pair next to an installed pair
+    kept = {"gen_key_pair": "",
+            "read_key_pair": "        final(w).fs == old(w).fs, (r is Ok) == crate::storage::key_usable(old(w).fs, cert.file_manager), //@C03.a_usable_stored_key_is_kept_when_reuse_is_configured\n",
+            "get_key_pair": "        cert.kp_reuse && crate::storage::key_usable(old(w).fs, cert.file_manager) ==> r is Ok && final(w).fs == old(w).fs, //@C03.a_usable_stored_key_is_kept_when_reuse_is_configured\n"}
     for name in ["gen_key_pair", "read_key_pair", "get_key_pair"]:
-        u.verify(PCF, name, "acme_proto::certificate", props=["C01", "C03", "C02"], fns={name: FnSpec(ret="r", ghost=True, sig=key_ok)})
+        u.verify(PCF, name, "acme_proto::certificate", props=["C01", "C03", "C02"], fns={name: FnSpec(ret="r", ghost=True, sig=key_ok + kept[name])})
     return u
 
 
@@ -251,6 +259,12 @@ pub open spec fn file_name_spec(fm: FileManager, t: FileType) -> Seq<char> {
     }
 }
 pub open spec fn file_path_spec(fm: FileManager, t: FileType) -> Seq<char> { crate::vpath::path_join(file_dir_spec(fm, t), file_name_spec(fm, t)) }
+// the stored private key can be used again: its path renders, the file exists, reads without fault and parses
+pub open spec fn key_usable(fs: Fs, fm: FileManager) -> bool {
+    let p = file_path_spec(fm, FileType::PrivateKey);
+    path_ok(fm, FileType::PrivateKey) && fs.files.contains_key(p) && !crate::vfs::read_faults(fs, p)
+        && crate::acme_common::crypto::pem_key(fs.files[p]) is Some
+}
 // storage.rs helpers of get_file_full_path (trusted): base64url of the account name, the Display of FileType, minijinja rendering
 #[verifier::external_body]
 pub fn b64_encode(s: &String) -> (r: String) ensures r@ == b64_text(s@) { unimplemented!() }
